@@ -4,6 +4,7 @@ import (
 	"encoding/json"
 	"fmt"
 	"math/big"
+	"os"
 	"sort"
 	"strings"
 	"time"
@@ -340,6 +341,8 @@ func init() {
 		Run: func(w *fw.W) {
 			o := c18Opts(w.Tier)
 			sess := stdSession()
+			c18Trace := os.Getenv("VERIF_C18_TRACE") != ""
+			lastTrace := int64(0)
 			forEachStdCase(w, o, func(cs *world.Case, family string) {
 				if family == "BYTES" {
 					return
@@ -348,8 +351,15 @@ func init() {
 				if family == "SCN" || family == "SSTORESEQ" || family == "SDSEQ" || family == "CREATESEQ" {
 					sess = world.NewSession(cs.Accounts)
 				}
+				if c18Trace && w.Evals-lastTrace > 20000 {
+					lastTrace = w.Evals
+					fmt.Fprintf(os.Stderr, "trace %s evals=%d %s %s\n", time.Now().Format("15:04:05"), w.Evals, family, cs.Note)
+				}
 				// (i) full-data streams
 				d, rrec, r, _ := tracePair(sess, cs, false)
+				if len(w.Samples) == 0 {
+					w.Sample(map[string]any{"note": cs.Note, "fork": cs.ForkName, "events": len(rrec.Lines)})
+				}
 				w.Evals++
 				w.Transitions += int64(len(rrec.Lines))
 				h := fw.Hash(cs.Note, cs.ForkName) ^ fw.HashBytes(cs.Accounts[1].Code)
